@@ -1,4 +1,5 @@
 """C12 - rank-aware samplers split one global epoch draw evenly and reproducibly."""
+import os
 from collections import Counter
 
 import numpy as np
@@ -21,6 +22,9 @@ RULE = ("spec = sampler kind (DistributedSampler shuffle/drop_last/num_repeats 1
 ASSUMPTIONS = ["'set_epoch changes the draw' is checked only for shuffled draws over >= 8 elements (P[two random permutations "
                "coincide] <= 1/40320 per case would still be a false alarm: the check therefore compares three epochs and reports "
                "only if all three coincide, P < 1e-9)"]
+
+
+WORK = os.path.join(os.path.dirname(os.path.dirname(os.path.abspath(__file__))), ".work")
 
 
 class PlainDS(torch.utils.data.Dataset):
@@ -48,6 +52,17 @@ def _streams(make, W, epoch, via=None):
         # the draw is a function of (seed, epoch): iterating the same object again without set_epoch reproduces it
         if list(s) != st_:
             raise Violation("re-iteration-with-equal-seed-epoch-differs", f"rank {r}/{W}: second pass over the same sampler object differs")
+        # ... and so do two passes that are alive at the same time (zip(s, s), a prefetching consumer next to a logging one)
+        a, b = iter(s), iter(s)
+        two = [[], []]
+        for k in range(2 * len(st_) + 2):
+            try:
+                two[k % 2].append(next(a if k % 2 == 0 else b))
+            except StopIteration:
+                pass
+        if two[0] != st_ or two[1] != st_:
+            raise Violation("two-live-iterators-over-one-sampler-disturb-each-other", f"rank {r}/{W}: alternating next() on two iterators gives "
+                                                                                      f"{two[0][:8]} / {two[1][:8]}, one alone {st_[:8]}")
         out.append(st_)
     if len({len(x) for x in out}) != 1:
         raise Violation("ranks-have-different-lengths", str([len(x) for x in out]))
@@ -75,6 +90,9 @@ def check_distributed(spec):
     ds = PlainDS(N)
 
     def make(rank, world):
+        if spec.get("call") == "positional":
+            # torch's documented order: dataset, num_replicas, rank, shuffle, seed, drop_last
+            return DistributedSampler(ds, world, rank, shuffle, seed, drop_last, num_repeats=r)
         return DistributedSampler(ds, num_replicas=world, rank=rank, shuffle=shuffle, seed=seed, drop_last=drop_last, num_repeats=r)
     try:
         G, L = _streams(make, W, spec["epoch"])
@@ -141,6 +159,22 @@ def with_env(fn):
     return run
 
 
+def _rank_kwargs(spec, rank, world):
+    """how rank and world size reach the sampler: python ints, numpy integers (an element of np.arange(world)), or only the one that
+    differs from its default (rank 0 / world size 1 are what an omitted argument resolves to outside a process group)"""
+    form = spec.get("rw_form") or "int"
+    if form == "numpy":
+        return {"rank": np.int64(rank), "world_size": np.int64(world)}
+    if form == "omit":
+        kw = {}
+        if rank != 0:
+            kw["rank"] = rank
+        if world != 1:
+            kw["world_size"] = world
+        return kw
+    return {"rank": rank, "world_size": world}
+
+
 def _class_layout(n_per_class, key):
     cl = [c for c, k in enumerate(n_per_class) for _ in range(k)]
     rng = np.random.default_rng(key)
@@ -157,7 +191,11 @@ def check_prefix_kind(spec):
         ds = ClassRoot(cl, len(spec["counts"]), spec["bulk"])
 
         def make(rank, world):
-            return ClassBalancedSampler(ds, shuffle=spec["shuffle"], samples_per_class=spec["spc"], seed=seed, rank=rank, world_size=world)
+            kw = _rank_kwargs(spec, rank, world)
+            if spec.get("call") == "positional" and len(kw) == 2:
+                # documented order: dataset, shuffle, samples_per_class, getall_item, seed, rank, world_size
+                return ClassBalancedSampler(ds, spec["shuffle"], spec["spc"], "class", seed, kw["rank"], kw["world_size"])
+            return ClassBalancedSampler(ds, shuffle=spec["shuffle"], samples_per_class=spec["spc"], seed=seed, **kw)
         n = len(cl)
     else:
         n = spec["n"]
@@ -176,7 +214,11 @@ def check_prefix_kind(spec):
         ds = PlainDS(n)
 
         def make(rank, world):
-            return WeightedSampler(ds, weights=wts, size=size, seed=seed, rank=rank, world_size=world)
+            kw = _rank_kwargs(spec, rank, world)
+            if spec.get("call") == "positional" and len(kw) == 2:
+                # documented order: dataset, weights, size, seed, rank, world_size
+                return WeightedSampler(ds, wts, size, seed, kw["rank"], kw["world_size"])
+            return WeightedSampler(ds, weights=wts, size=size, seed=seed, **kw)
     try:
         G, L = _streams(make, W, spec["epoch"])
     except AssertionError:
@@ -222,19 +264,137 @@ def check_random_sampler(spec):
 
 
 ENV = st.sampled_from([None, None, [1, 2], [3, 4], [5, 8]])
+RW = st.sampled_from(["int", "int", "numpy", "omit"])
+CALL = st.sampled_from(["keyword", "keyword", "positional"])
 WORLD = st.sampled_from([1, 2, 3, 3, 4, 5, 6, 7, 8, 11, 16])
 # half of the datasets are tiny: fewer samples than ranks, padding longer than the draw itself
 SIZE = st.one_of(st.integers(1, 6), st.integers(1, 40))
 # sampler seeds: the usual small ones and values around the 31/32-bit boundaries and beyond (the generators take 64-bit seeds)
 SEEDS = st.one_of(st.integers(0, 2 ** 20), st.sampled_from([2 ** 31 - 1, 2 ** 31, 2 ** 32 - 1, 2 ** 32 + 5, 2 ** 40 + 3]))
-DIST = st.fixed_dictionaries({"N": SIZE, "W": WORLD, "env": ENV, "seed": SEEDS, "epoch": st.sampled_from([0, 0, 1, 2, 7, 50]),
+# ------------------------------------------------------------------ real process groups (default rank / world size)
+def _group_member(rank, W, store, spec, conn):
+    """body of one forked rank: joins a gloo group through a file store and builds its sampler WITHOUT rank / world size"""
+    import datetime
+    import pickle
+    import torch.distributed as dist
+    try:
+        if spec["before"] in ("query", "both"):
+            # a dry run before the group exists (a single-process smoke test, a config printout) asks for the rank already
+            from kappadata.utils.distributed import get_rank, get_world_size
+            get_rank(), get_world_size()
+        if spec["before"] in ("build", "both") and spec["kind"] != "distributed":
+            # (torch's DistributedSampler refuses to be built without a group; the other samplers fall back to rank 0 of 1)
+            list(_default_sampler(spec))
+        dist.init_process_group("gloo", init_method=f"file://{store}", rank=rank, world_size=W, timeout=datetime.timedelta(seconds=60))
+        s = _default_sampler(spec)
+        if hasattr(s, "set_epoch"):
+            s.set_epoch(spec["epoch"])
+        out = [int(i) for i in s]
+        conn.send(("ok", pickle.dumps((out, len(s)))))
+        dist.barrier()
+        dist.destroy_process_group()
+    except BaseException as e:  # pragma: no cover
+        try:
+            conn.send(("err", repr(e)[:300]))
+        except Exception:
+            pass
+    finally:
+        conn.close()
+        os._exit(0)
+
+
+def _group_dataset(spec):
+    if spec["kind"] in ("balanced", "semi"):
+        cl = _class_layout(spec["counts"], spec["key"])
+        if spec["kind"] == "semi":
+            cl = [(-1 if k % 3 == 0 else c) for k, c in enumerate(cl)]
+            if all(c == -1 for c in cl) or all(c != -1 for c in cl):
+                cl = [0, -1] + cl
+        return ClassRoot(cl, len(spec["counts"]), "list")
+    return PlainDS(spec["n"])
+
+
+def _default_sampler(spec, rank=None, world=None):
+    """rank / world = None: not passed at all (resolved from the process group)"""
+    from kappadata.samplers import ClassBalancedSampler, DistributedSampler, SemiSampler, WeightedSampler
+    kind, seed = spec["kind"], spec["seed"]
+    ds = _group_dataset(spec)
+    if kind == "distributed":
+        kw = {} if rank is None else {"num_replicas": world, "rank": rank}
+        return DistributedSampler(ds, shuffle=True, seed=seed, num_repeats=spec["repeats"], **kw)
+    kw = {} if rank is None else {"rank": rank, "world_size": world}
+    if kind == "balanced":
+        return ClassBalancedSampler(ds, shuffle=True, seed=seed, **kw)
+    if kind == "semi":
+        return SemiSampler(ds, num_labeled=1, num_unlabeled=2, seed=seed, **kw)
+    wts = torch.tensor(np.random.default_rng(spec["key"]).random(spec["n"]) + 0.05, dtype=torch.float32)
+    return WeightedSampler(ds, weights=wts, seed=seed, **kw)
+
+
+def check_process_group(spec):
+    """inside a real torch.distributed group a sampler built without rank / world size is the sampler of that process' rank"""
+    import multiprocessing as mp
+    import pickle
+    import tempfile
+    W = spec["W"]
+    os.makedirs(WORK, exist_ok=True)
+    fd, store = tempfile.mkstemp(prefix="c12_store_", dir=WORK)
+    os.close(fd)
+    os.remove(store)
+    ctx = mp.get_context("fork")
+    procs, conns = [], []
+    try:
+        for r in range(W):
+            pc, cc = ctx.Pipe(duplex=False)
+            p = ctx.Process(target=_group_member, args=(r, W, store, spec, cc))
+            p.start()
+            cc.close()
+            procs.append(p)
+            conns.append(pc)
+        got = []
+        for r, c in enumerate(conns):
+            if not c.poll(90):
+                raise Refused("process group did not come up within 90 s")
+            status, payload = c.recv()
+            if status != "ok":
+                if "AssertionError" in payload and spec["kind"] == "distributed":
+                    raise Refused("constructor assertion")
+                raise Violation(f"default-rank-sampler-raises-inside-a-process-group:{spec['kind']}", payload)
+            got.append(pickle.loads(payload))
+    finally:
+        for p in procs:
+            p.join(20)
+            if p.is_alive():
+                p.kill()
+                p.join(5)
+        try:
+            os.remove(store)
+        except OSError:
+            pass
+    for r, (stream, length) in enumerate(got):
+        ref = _default_sampler(spec, rank=r, world=W)
+        if hasattr(ref, "set_epoch"):
+            ref.set_epoch(spec["epoch"])
+        exp = [int(i) for i in ref]
+        if length != len(ref) or stream != exp:
+            raise Violation(f"default-rank-differs-from-explicit-rank:{spec['kind']}",
+                            f"rank {r} of {W} (before init: {spec['before']}): sampler built without rank/world size yields {len(stream)} entries "
+                            f"(len {length}) {stream[:8]}, the explicit (rank={r}, world_size={W}) sampler {len(exp)} entries {exp[:8]}")
+    return Case(True, [spec["kind"], "W=%d" % W, "before:" + spec["before"]], W)
+
+
+GROUP = st.fixed_dictionaries({"kind": st.sampled_from(["distributed", "balanced", "weighted", "semi"]), "W": st.sampled_from([2, 2, 3]),
+                               "n": st.integers(4, 24), "counts": st.lists(st.integers(1, 5), min_size=2, max_size=4),
+                               "key": st.integers(0, 99), "seed": st.integers(0, 2 ** 20), "epoch": st.sampled_from([0, 1, 7]),
+                               "repeats": st.sampled_from([1, 1, 2]), "before": st.sampled_from(["nothing", "query", "build", "both"])})
+DIST = st.fixed_dictionaries({"N": SIZE, "W": WORLD, "env": ENV, "call": CALL, "seed": SEEDS, "epoch": st.sampled_from([0, 0, 1, 2, 7, 50]),
                               "repeats": st.sampled_from([1, 1, 2, 3, 4]), "shuffle": st.sampled_from([True, True, False]),
                               "drop_last": st.booleans()})
 BAL = st.fixed_dictionaries({"kind": st.just("balanced"), "counts": st.lists(st.integers(1, 7), min_size=2, max_size=6),
                              "key": st.integers(0, 999), "bulk": st.sampled_from(["list", "numpy", "tensor", "numpy:uint8", "numpy:int16", "tensor:int8", "tensor:int32"]),
-                             "spc": st.one_of(st.none(), st.integers(1, 20)), "shuffle": st.booleans(), "W": WORLD, "env": ENV,
+                             "spc": st.one_of(st.none(), st.integers(1, 20)), "shuffle": st.booleans(), "W": WORLD, "env": ENV, "rw_form": RW, "call": CALL,
                              "seed": SEEDS, "epoch": st.sampled_from([0, 0, 1, 2, 7, 50])})
-WEI = st.fixed_dictionaries({"kind": st.just("weighted"), "n": SIZE, "key": st.integers(0, 999), "env": ENV,
+WEI = st.fixed_dictionaries({"kind": st.just("weighted"), "n": SIZE, "key": st.integers(0, 999), "env": ENV, "rw_form": RW, "call": CALL,
                              "size": st.one_of(st.none(), st.integers(1, 40)), "W": WORLD, "seed": SEEDS,
                              "epoch": st.sampled_from([0, 0, 1, 2, 7, 50])})
 RAND = st.fixed_dictionaries({"N": st.integers(1, 40), "repeats": st.integers(1, 4), "seed": SEEDS})
@@ -246,6 +406,8 @@ FACETS = [
           shards={"quick": 2, "thorough": 6}, min_nontrivial={"quick": 200, "thorough": 2000}),
     Facet("weighted", guarded("weighted", with_env(check_prefix_kind)), strategy=lambda tier: WEI, budget={"quick": 1000, "thorough": 12000},
           shards={"quick": 2, "thorough": 6}, min_nontrivial={"quick": 200, "thorough": 2000}),
+    Facet("process-group", check_process_group, strategy=lambda tier: GROUP, budget={"quick": 64, "thorough": 300},
+          shards={"quick": 8, "thorough": 12}, min_nontrivial={"quick": 20, "thorough": 100}, case_timeout=300),
     Facet("random-sampler-repeats", check_random_sampler, strategy=lambda tier: RAND, budget={"quick": 400, "thorough": 4000},
           shards={"quick": 1, "thorough": 2}, min_nontrivial={"quick": 100, "thorough": 1000}),
 ]
